@@ -13,6 +13,7 @@
 #include <sys/wait.h>
 #include <sys/select.h>
 #include <signal.h>
+#include <sys/resource.h>
 using namespace bpp; using namespace verif;
 
 static std::string showMap(const std::map<std::string, std::string>& m) {
@@ -30,6 +31,10 @@ static std::string varsGuarded(std::map<std::string, std::string> m) {
   pid_t pid = fork();
   if (pid == 0) {
     close(fd[0]);
+    // the watchdog is CPU time (independent of the load of the machine): a loop that does not end
+    // is killed by SIGXCPU after 1 s of CPU; the parent only keeps a generous wall-clock bound
+    struct rlimit rl; rl.rlim_cur = 1; rl.rlim_max = 2; setrlimit(RLIMIT_CPU, &rl);
+    signal(SIGXCPU, SIG_DFL);
     std::string out;
     try { AttributesTools::resolveVariables(m); out = showMap(m); }
     catch (Exception&) { out = "exc:bpp"; }
@@ -39,7 +44,7 @@ static std::string varsGuarded(std::map<std::string, std::string> m) {
   }
   close(fd[1]);
   std::string out; bool timedOut = false;
-  const char* e = getenv("VERIF_VARS_TIMEOUT_MS"); long budget = e ? atol(e) : 1500;
+  const char* e = getenv("VERIF_VARS_TIMEOUT_MS"); long budget = e ? atol(e) : 30000;
   for (;;) {
     fd_set rs; FD_ZERO(&rs); FD_SET(fd[0], &rs);
     struct timeval tv; tv.tv_sec = budget / 1000; tv.tv_usec = (budget % 1000) * 1000;
